@@ -788,7 +788,7 @@ pub fn run_isolated<C: Serialize>(prop: &str, stage: &str, case: &C, timeout: st
   let path = dir.join(format!("{}-iso-{}.json", std::process::id(), n));
   std::fs::write(&path, serde_json::to_vec(case).unwrap()).expect("write isolated case");
   let exe = std::env::current_exe().expect("exe");
-  let run = |limit: std::time::Duration| -> (Option<std::process::ExitStatus>, String, String) {
+  let run = |limit: std::time::Duration| -> Result<(Option<std::process::ExitStatus>, String, String), Fail> {
     let mut child = std::process::Command::new(&exe)
       .arg("__case")
       .arg(prop)
@@ -798,7 +798,8 @@ pub fn run_isolated<C: Serialize>(prop: &str, stage: &str, case: &C, timeout: st
       .stdout(std::process::Stdio::piped())
       .stderr(std::process::Stdio::piped())
       .spawn()
-      .expect("spawn child vprop");
+      // the harness binary vanished or the system is out of processes: infrastructure, not a verdict
+      .map_err(|e| Fail::new("inconclusive:child-spawn", format!("cannot start the child process {exe:?}: {e}")))?;
     let mut so = child.stdout.take().unwrap();
     let mut se = child.stderr.take().unwrap();
     let t1 = std::thread::spawn(move || {
@@ -826,13 +827,13 @@ pub fn run_isolated<C: Serialize>(prop: &str, stage: &str, case: &C, timeout: st
         Err(_) => break None,
       }
     };
-    (status, t1.join().unwrap_or_default(), t2.join().unwrap_or_default())
+    Ok((status, t1.join().unwrap_or_default(), t2.join().unwrap_or_default()))
   };
-  let (mut status, mut out, mut err) = run(timeout);
+  let (mut status, mut out, mut err) = run(timeout)?;
   if status.is_none() {
     // a hang is re-run twice with a longer limit before it counts
     for _ in 0..2 {
-      let r = run(timeout * 3);
+      let r = run(timeout * 3)?;
       status = r.0;
       out = r.1;
       err = r.2;
